@@ -130,15 +130,18 @@ VARIABLES
   scanning, \* directories whose scan is in flight: the walk runs in the executor, the result is
             \* not applied yet ({} = no scan in flight)
   scanAll,  \* the scan in flight is scan() over every shared directory
+  kept,     \* item keys the application still holds (results of a query, of get_shared_item, a
+            \* listing of directory.items) - they stay alive whatever the index does
   n         \* length of the history
 
-vars == <<disk, shared, items, tm, dead, fresh, scanning, scanAll, n>>
+vars == <<disk, shared, items, tm, dead, fresh, scanning, scanAll, kept, n>>
 
 Key(i) == [f |-> i.f, own |-> i.own, v |-> i.v, q |-> i.q]
 Keys(its) == {Key(i) : i \in its}
 KeyPath(k) == k.q
 \* one history step; MaxOps = 0 means histories of any length (n is then not counted)
 Step == IF MaxOps = 0 THEN n' = n ELSE n < MaxOps /\ n' = n + 1
+Unkept == UNCHANGED kept
 
 IsPrefixDir(p, d) == Len(p) <= Len(d) /\ SubSeq(d, 1, Len(p)) = p
 \* manager.py:900-908  shared directories containing d, d excluded
@@ -152,7 +155,7 @@ Init ==
   /\ disk \in SUBSET {[f |-> f, v |-> 1] : f \in Files}
   /\ shared = {} /\ items = {} /\ tm = {} /\ dead = {}
   /\ fresh = FALSE /\ n = 0
-  /\ scanning = {} /\ scanAll = FALSE
+  /\ scanning = {} /\ scanAll = FALSE /\ kept = {}
 
 \* Histories are sequential except for one thing: a scan is not atomic.  While its directory
 \* walk runs in the executor (ScanBegin .. ScanEnd) the counts and the index can be read, files
@@ -177,7 +180,7 @@ Add(d) ==
   /\ d \notin shared
   /\ items' = MoveOnAdd(items, shared, d)
   /\ shared' = shared \cup {d}
-  /\ fresh' = FALSE /\ Step
+  /\ fresh' = FALSE /\ Step /\ Unkept
   /\ UNCHANGED <<disk, tm, dead>>
 
 \* manager.py:447-501  remove_shared_directory: the items go to the innermost remaining
@@ -194,15 +197,15 @@ Remove(d) ==
   /\ shared' = shared \ {d}
   /\ items' = MoveOnRemove(items, shared \ {d}, d)
   /\ dead' = dead \cup Keys({i \in items : i.d = d})
-  /\ tm' = IF FixRemoveRebuild THEN Keys(items') ELSE tm \cap Alive(items', dead')
-  /\ fresh' = FALSE /\ Step
+  /\ tm' = IF FixRemoveRebuild THEN Keys(items') ELSE tm \cap Alive(items', dead' \cup kept)
+  /\ fresh' = FALSE /\ Step /\ Unkept
   /\ UNCHANGED disk
 
 \* manager.py:420-445  update_shared_directory: share mode only
 Update(d) ==
   /\ Same
   /\ d \in shared
-  /\ fresh' = FALSE /\ Step
+  /\ fresh' = FALSE /\ Step /\ Unkept
   /\ UNCHANGED <<disk, shared, items, tm, dead>>
 
 \* manager.py:64-105, 529-576  scan_directory_files: walk d, skip shared children, reconcile
@@ -216,8 +219,8 @@ ScanSet(D) ==
   /\ items' = {i \in items : i.d \notin D} \cup ScannedItems(shared, D)
   /\ tm' = IF FixScanDiscards
              THEN (tm \ Keys({i \in items : i.d \in D})) \cup Keys({i \in items' : i.d \in D})
-             ELSE (tm \cup Keys({i \in items' : i.d \in D})) \cap Alive(items', dead)
-  /\ Step
+             ELSE (tm \cup Keys({i \in items' : i.d \in D})) \cap Alive(items', dead \cup kept)
+  /\ Step /\ Unkept
   /\ UNCHANGED <<disk, shared, dead>>
 
 Scan(d) == Quiet /\ Same /\ d \in shared /\ ScanSet({d}) /\ fresh' = FALSE
@@ -231,12 +234,12 @@ ScanAll == Quiet /\ Same /\ ScanSet(shared) /\ fresh' = TRUE
 ScanBegin(d) ==
   /\ Quiet /\ d \in shared
   /\ scanning' = {d} /\ scanAll' = FALSE
-  /\ fresh' = FALSE /\ Step
+  /\ fresh' = FALSE /\ Step /\ Unkept
   /\ UNCHANGED <<disk, shared, items, tm, dead>>
 ScanBeginAll ==
   /\ Quiet /\ shared # {}
   /\ scanning' = shared /\ scanAll' = TRUE
-  /\ fresh' = FALSE /\ Step
+  /\ fresh' = FALSE /\ Step /\ Unkept
   /\ UNCHANGED <<disk, shared, items, tm, dead>>
 ScanEnd ==
   /\ ~Quiet
@@ -271,35 +274,60 @@ Load(L, handover) ==
   /\ items' = IF handover THEN HandedOverItems(L) ELSE LoadedItems(L)
   /\ dead' = dead \cup Keys({i \in Folded(L) : i.d \notin Range(L)})
   /\ tm' = Keys(items')
-  /\ fresh' = FALSE /\ Step
+  /\ fresh' = FALSE /\ Step /\ Unkept
   /\ UNCHANGED disk
 
 \* the world outside
 DiskCreate(f, v) ==
   /\ \A x \in disk : x.f # f
   /\ disk' = disk \cup {[f |-> f, v |-> v]}
-  /\ fresh' = FALSE /\ Step /\ Same
+  /\ fresh' = FALSE /\ Step /\ Unkept /\ Same
   /\ UNCHANGED <<shared, items, tm, dead>>
 
 DiskDelete(f) ==
   /\ \E x \in disk : x.f = f
   /\ disk' = {x \in disk : x.f # f}
-  /\ fresh' = FALSE /\ Step /\ Same
+  /\ fresh' = FALSE /\ Step /\ Unkept /\ Same
   /\ UNCHANGED <<shared, items, tm, dead>>
 
 Touch(f, v) ==
   /\ \E x \in disk : x.f = f /\ x.v # v
   /\ disk' = {x \in disk : x.f # f} \cup {[f |-> f, v |-> v]}
-  /\ fresh' = FALSE /\ Step /\ Same
+  /\ fresh' = FALSE /\ Step /\ Unkept /\ Same
   /\ UNCHANGED <<shared, items, tm, dead>>
+
+\* A whole directory vanishes from disk (deleted, unmounted) with everything in it; d may be a
+\* shared directory, a folder inside one, or contain shared directories.  A rescan then finds
+\* nothing there: "files that vanished on disk".
+DiskRemoveDir(d) ==
+  /\ \E x \in disk : IsUnder(x.f, d)
+  /\ disk' = {x \in disk : ~IsUnder(x.f, d)}
+  /\ fresh' = FALSE /\ Step /\ Same /\ Unkept
+  /\ UNCHANGED <<shared, items, tm, dead>>
+
+\* The application keeps what it was given (the items of the index as they are now) across the
+\* following operations, and lets go of it later.  Nothing of the index changes; what changes is
+\* which item objects are still alive when the index is next reconciled - the weakly referencing
+\* term map must not depend on that.
+Hold ==
+  /\ ~(Keys(items) \subseteq kept)
+  /\ kept' = kept \cup Keys(items)
+  /\ Step /\ Same
+  /\ UNCHANGED <<disk, shared, items, tm, dead, fresh>>
+Release ==
+  /\ kept # {}
+  /\ kept' = {}
+  /\ tm' = tm \cap Alive(items, dead)
+  /\ Step /\ Same
+  /\ UNCHANGED <<disk, shared, items, dead, fresh>>
 
 \* the caller drops the removed directory objects and the garbage collector runs
 Collect ==
   /\ Quiet /\ Same
   /\ dead # {}
   /\ dead' = {}
-  /\ tm' = tm \cap Keys(items)
-  /\ Step
+  /\ tm' = tm \cap Alive(items, kept)
+  /\ Step /\ Unkept
   /\ UNCHANGED <<disk, shared, items, fresh>>
 
 Next ==
@@ -313,6 +341,9 @@ Next ==
   \/ ScanEnd
   \/ \E L \in SettingsLists : Load(L, FALSE)
   \/ \E f \in Files : DiskDelete(f)
+  \/ \E d \in Dirs : DiskRemoveDir(d)
+  \/ Hold
+  \/ Release
   \/ \E f \in Files, v \in 1..MaxVer : DiskCreate(f, v)
   \/ \E f \in Files, v \in 1..MaxVer : Touch(f, v)
   \/ Collect
@@ -450,7 +481,7 @@ InitMatch ==
   /\ \E x \in MatchNames, y \in MatchNames : items = {MatchItem(x), MatchItem(y)}
   /\ disk = {[f |-> i.f, v |-> i.v] : i \in items}
   /\ shared = {<<nP>>} /\ tm = Keys(items) /\ dead = {}
-  /\ fresh = TRUE /\ n = 0 /\ scanning = {} /\ scanAll = FALSE
+  /\ fresh = TRUE /\ n = 0 /\ scanning = {} /\ scanAll = FALSE /\ kept = {}
 SpecMatch == InitMatch /\ [][UNCHANGED vars]_vars
 MC_QueriesM == {
   <<100>>, <<101>>, <<102, 102>>, <<100, 102>>,                  \* a  A  bb  ab
